@@ -102,6 +102,8 @@ class Cluster:
         self.fired = {}
         self.on_command = None  # hook(exe, argv, stdin) called before execution (seam event)
         self.after_command = None  # hook(exe) called after execution (kill 'after')
+        self.on_accept = None  # hook(job) at the instant a submission is accepted
+        self.on_start = None  # hook(job) at the instant a job starts
         self.frozen = False
         self.sacct_calls = 0
 
@@ -161,6 +163,8 @@ class Cluster:
         self.order.append(job.id)
         job.submit_seq = self.trace.seq
         self.journal.append((self.trace.seq, "submit", job.id, job.name))
+        if self.on_accept is not None:
+            self.on_accept(job)
 
     # ---------------------------------------------------------------- slurm
     def _slurm_sbatch(self, args, stdin):
@@ -402,6 +406,8 @@ class Cluster:
 
     def start(self, j):
         assert j.phase == "pending" and self.dep_state(j) == "ok"
+        if self.on_start is not None:
+            self.on_start(j)
         j.phase = "running"
         j.code = PHASE_CODES[self.flavour]["running"][0]
         j.start_seq = self.trace.seq
